@@ -32,6 +32,161 @@ theorem canon_lift {hook : Node → List Diag} {canon : Node → List Expect}
 theorem matches_self (sp : Span) (g : Diag) (h : g.primary = sp) : ({ primary := sp } : Expect).matches g = true := by
   simp [Expect.matches, h]
 
+/-! ### numerals: the Rust predicates against the values -/
+
+theorem decimalValue_hexPrefix (x : Char) (hx : x = 'x' ∨ x = 'X') (r : List Char) : decimalValue ('0' :: x :: r) = none := by
+  rcases hx with rfl | rfl <;> simp [decimalValue, readDigits, isDec, decVal] <;> decide
+
+theorem hexVal_eq_zero (c : Char) (hc : isHex c = true) (h : hexVal c = 0) : c = '0' := by
+  have key : c.toNat = 48 → c = '0' := by
+    intro h48
+    have := Char.ofNat_toNat c
+    rw [h48] at this
+    exact this.symm
+  simp only [isHex, isDec, hexVal, Bool.or_eq_true, Bool.and_eq_true, decide_eq_true_eq] at hc h
+  simp only [Char.le_def, UInt32.le_iff_toNat_le] at hc h
+  have e0 : ('0' : Char).val.toNat = 48 := by decide
+  have e9 : ('9' : Char).val.toNat = 57 := by decide
+  have ea : ('a' : Char).val.toNat = 97 := by decide
+  have ef : ('f' : Char).val.toNat = 102 := by decide
+  have eA : ('A' : Char).val.toNat = 65 := by decide
+  have eF : ('F' : Char).val.toNat = 70 := by decide
+  rw [e0, e9, ea, ef] at h
+  rw [e0, e9, ea, ef, eA, eF] at hc
+  have hn : c.toNat = c.val.toNat := rfl
+  apply key
+  split at h
+  · omega
+  · split at h <;> omega
+
+/-- the by-value reading of a numeral's text: it denotes zero -/
+def zeroText (text : String) : Bool :=
+  match numValue text with
+  | some v => v.denotesZero
+  | none => false
+
+theorem readHex_zeros : (r : List Char) → (n : Nat) → r.all (· == '0') = true →
+    readHexDigits r 0 n = (0, n + r.length, [])
+  | [], n, _ => by simp [readHexDigits]
+  | c :: cs, n, h => by
+    simp only [List.all_cons, Bool.and_eq_true, beq_iff_eq] at h
+    obtain ⟨rfl, h2⟩ := h
+    have h1 : isHex '0' = true := by decide
+    have hv : hexVal '0' = 0 := by decide
+    simp [readHexDigits, h1, hv, readHex_zeros cs (n + 1) h2]
+    omega
+
+theorem readHex_zero_inv : (r : List Char) → (acc n : Nat) → (readHexDigits r acc n).2.2 = [] →
+    (readHexDigits r acc n).1 = 0 → acc = 0 ∧ r.all (· == '0') = true
+  | [], acc, n, _, hv => by simpa [readHexDigits] using hv
+  | c :: cs, acc, n, hr, hv => by
+    simp only [readHexDigits] at hr hv
+    cases hc : isHex c with
+    | false => simp [hc] at hr
+    | true =>
+      simp only [hc, if_true] at hr hv
+      obtain ⟨hacc, hall⟩ := readHex_zero_inv cs _ _ hr hv
+      have h0 : hexVal c = 0 := by omega
+      have := hexVal_eq_zero c hc h0
+      subst this
+      exact ⟨by omega, by simp [hall]⟩
+
+theorem readHex_count : (r : List Char) → (acc n : Nat) → n ≤ (readHexDigits r acc n).2.1
+  | [], _, _ => by simp [readHexDigits]
+  | c :: cs, acc, n => by
+    simp only [readHexDigits]
+    split
+    · exact Nat.le_trans (Nat.le_succ n) (readHex_count cs _ _)
+    · simp
+
+theorem denotesZero_int (v : Nat) : (⟨v, 1⟩ : NumVal).denotesZero = decide (v = 0) := by
+  simp only [NumVal.denotesZero]
+  cases v with
+  | zero => simp
+  | succ k =>
+    have : 2 ≤ 2 ^ 1075 := Nat.le_self_pow (by omega) 2
+    have h2 : ¬ ((k + 1) * 2 ^ 1075 ≤ 1) := by
+      intro h
+      have : 2 ^ 1075 ≤ (k + 1) * 2 ^ 1075 := Nat.le_mul_of_pos_left _ (by omega)
+      omega
+    simp [h2]
+
+theorem hexValue_zero (hex : List Char) (x : Char) (hx : x = 'x' ∨ x = 'X') :
+    (match hexValue ('0' :: x :: hex) with | some v => v.denotesZero | none => false) = (!hex.isEmpty && hex.all (· == '0')) := by
+  have hxb : (x = 'x' || x = 'X') = true := by rcases hx with rfl | rfl <;> decide
+  simp only [hexValue, hxb, if_true]
+  cases hex with
+  | nil => simp [readHexDigits]
+  | cons c cs =>
+    generalize hrd : readHexDigits (c :: cs) 0 0 = res
+    obtain ⟨v, n, rest⟩ := res
+    simp only [List.isEmpty_cons, Bool.not_false, Bool.true_and]
+    cases hall : (c :: cs).all (· == '0') with
+    | true =>
+      rw [readHex_zeros (c :: cs) 0 hall] at hrd
+      simp only [Prod.mk.injEq] at hrd
+      obtain ⟨rfl, rfl, rfl⟩ := hrd
+      have : (decide (0 + (c :: cs).length = 0) || !([] : List Char).isEmpty) = false := by simp
+      rw [this]
+      simp only [Bool.false_eq_true, if_false, denotesZero_int, decide_true]
+    | false =>
+      by_cases hcond : (decide (n = 0) || !rest.isEmpty) = true
+      · rw [if_pos hcond]
+      · rw [if_neg hcond]
+        simp only [Bool.or_eq_true, decide_eq_true_eq, Bool.not_eq_true', not_or, Bool.not_eq_false] at hcond
+        have hrest : rest = [] := by simpa using hcond.2
+        have := readHex_zero_inv (c :: cs) 0 0 (by rw [hrd]; exact hrest)
+        rw [hrd] at this
+        simp only [denotesZero_int]
+        cases v with
+        | zero => have := (this rfl).2; rw [hall] at this; cases this
+        | succ k => simp
+
+theorem numberIsZero_eq (text : String) : numberIsZero text = zeroText text := by
+  unfold numberIsZero zeroText numValue
+  split
+  · rename_i x hex hcs
+    rw [hcs]
+    by_cases hx : x = 'x' ∨ x = 'X'
+    · have hxb : (x = 'x' || x = 'X') = true := by rcases hx with rfl | rfl <;> decide
+      rw [if_pos hxb, ← hexValue_zero hex x hx]
+      cases hh : hexValue ('0' :: x :: hex) with
+      | some v => rfl
+      | none => simp [decimalValue_hexPrefix x hx hex]
+    · have hxb : (x = 'x' || x = 'X') = false := by
+        simp only [not_or] at hx
+        simp [hx.1, hx.2]
+      have hnone : hexValue ('0' :: x :: hex) = none := by simp [hexValue, hxb]
+      rw [if_neg (by simp [hxb]), hnone]
+      simp only [rustF64IsZero]
+      cases decimalValue ('0' :: x :: hex) <;> rfl
+  · rename_i hne
+    have hnone : hexValue text.toList = none := by
+      unfold hexValue
+      split
+      · rename_i x r hcs
+        exact absurd hcs (hne x r)
+      · rfl
+    rw [hnone]
+    simp only [rustF64IsZero]
+    cases decimalValue text.toList <;> rfl
+
+theorem decimal_none_of_hex (cs : List Char) (w : NumVal) (h : hexValue cs = some w) : decimalValue cs = none := by
+  unfold hexValue at h
+  split at h
+  · rename_i x r
+    split at h
+    · rename_i hx
+      exact decimalValue_hexPrefix x (by simpa using hx) r
+    · cases h
+  · cases h
+
+theorem numValue_of_decimal (text : String) (v : NumVal) (h : decimalValue text.toList = some v) : numValue text = some v := by
+  unfold numValue
+  cases hh : hexValue text.toList with
+  | none => exact h
+  | some w => rw [decimal_none_of_hex _ w hh] at h; cases h
+
 theorem numValue_zero : numValue "0" = some ⟨0, 1⟩ := by decide
 
 theorem zeroLit_of_spelled {e : Expr} (h : spelled "0" e = true) : zeroLit e = true := by
@@ -39,17 +194,16 @@ theorem zeroLit_of_spelled {e : Expr} (h : spelled "0" e = true) : zeroLit e = t
   case num t =>
     simp [zeroLit, h, numValue_zero, NumVal.denotesZero]
 
+theorem zeroLit_num (t : Tok) : zeroLit (.num t) = zeroText t.text := rfl
+
 /-! ### divide_by_zero -/
 
-/-- the hypothesis that excludes the defect: a dividend that denotes zero is spelled `0` -/
-def plainZeroDividend : Node → Bool
-  | .expr (.bin _ l _ _) => !zeroLit l || spelled "0" l
-  | _ => true
+/-- since /repo 1da8247 the lint's `value_is_zero` IS the by-value test -/
+theorem DivideByZero.valueIsZero_eq (e : Expr) : DivideByZero.valueIsZero e = zeroLit e := by
+  cases e <;> try rfl
+  case num t => simp [DivideByZero.valueIsZero, zeroLit_num, numberIsZero_eq]
 
-theorem DivideByZero.valueIsZero_eq (e : Expr) : DivideByZero.valueIsZero e = spelled "0" e := by
-  cases e <;> rfl
-
-theorem DivideByZero.hook_sound (n : Node) (g : Diag) (h : g ∈ DivideByZero.hook n) (hp : plainZeroDividend n = true) :
+theorem DivideByZero.hook_sound (n : Node) (g : Diag) (h : g ∈ DivideByZero.hook n) :
     Doc.divideByZero n g = true := by
   cases n with
   | expr e =>
@@ -57,37 +211,45 @@ theorem DivideByZero.hook_sound (n : Node) (g : Diag) (h : g ∈ DivideByZero.ho
     case bin sp l op r =>
       obtain ⟨⟨hop, hr, hl⟩, hg⟩ := h
       rw [DivideByZero.valueIsZero_eq] at hr hl
-      have hzr := zeroLit_of_spelled hr
-      have hzl : zeroLit l = false := by
-        cases hz : zeroLit l
-        · rfl
-        · simp [plainZeroDividend, hz, hl] at hp
-      simp [Doc.divideByZero, hop, hzr, hzl, hg]
+      simp [Doc.divideByZero, hop, hr, hl, hg]
   | stmt s => simp [DivideByZero.hook] at h
   | table sp fs => simp [DivideByZero.hook] at h
   | call c => simp [DivideByZero.hook] at h
 
-theorem DivideByZero.hook_canon (n : Node) (x : Expect) (hx : x ∈ Canon.divideByZero n) :
+/-- the lint reports the documented pattern however the zero is spelled -/
+theorem DivideByZero.hook_byValue (n : Node) (x : Expect) (hx : x ∈ ByValue.divideByZero n) :
     ∃ g ∈ DivideByZero.hook n, x.matches g = true := by
+  cases n with
+  | expr e =>
+    cases e <;> simp [ByValue.divideByZero] at hx
+    case bin sp l op r =>
+      obtain ⟨⟨⟨hop, hr⟩, hl⟩, rfl⟩ := hx
+      refine ⟨{ code := "divide_by_zero", primary := sp, msg := DivideByZero.message }, ?_, matches_self _ _ rfl⟩
+      simp [DivideByZero.hook, DivideByZero.valueIsZero_eq, hop, hr, hl]
+  | stmt s => simp [ByValue.divideByZero] at hx
+  | table sp fs => simp [ByValue.divideByZero] at hx
+  | call c => simp [ByValue.divideByZero] at hx
+
+theorem Canon.divideByZero_sub (n : Node) (x : Expect) (hx : x ∈ Canon.divideByZero n) : x ∈ ByValue.divideByZero n := by
   cases n with
   | expr e =>
     cases e <;> simp [Canon.divideByZero] at hx
     case bin sp l op r =>
       obtain ⟨⟨⟨hop, hr⟩, hl⟩, rfl⟩ := hx
-      have hl' : spelled "0" l = false := by
-        cases hs : spelled "0" l
-        · rfl
-        · simp [zeroLit_of_spelled hs] at hl
-      refine ⟨{ code := "divide_by_zero", primary := sp, msg := DivideByZero.message }, ?_, matches_self _ _ rfl⟩
-      simp [DivideByZero.hook, DivideByZero.valueIsZero_eq, hop, hr, hl']
+      simp [ByValue.divideByZero, hop, zeroLit_of_spelled hr, hl]
   | stmt s => simp [Canon.divideByZero] at hx
   | table sp fs => simp [Canon.divideByZero] at hx
   | call c => simp [Canon.divideByZero] at hx
 
+theorem DivideByZero.hook_canon (n : Node) (x : Expect) (hx : x ∈ Canon.divideByZero n) :
+    ∃ g ∈ DivideByZero.hook n, x.matches g = true :=
+  DivideByZero.hook_byValue n x (Canon.divideByZero_sub n x hx)
+
 /-! ### compare_nan -/
 
-theorem CompareNan.valueIsZero_eq (e : Expr) : CompareNan.valueIsZero e = spelled "0" e := by
-  cases e <;> rfl
+theorem CompareNan.valueIsZero_eq (e : Expr) : CompareNan.valueIsZero e = zeroLit e := by
+  cases e <;> try rfl
+  case num t => simp [CompareNan.valueIsZero, zeroLit_num, numberIsZero_eq]
 
 theorem CompareNan.isVar_eq (e : Expr) : CompareNan.isVar e = ByValue.isVar e := by
   cases e <;> rfl
@@ -105,19 +267,35 @@ theorem CompareNan.hook_sound (n : Node) (g : Diag) (h : g ∈ CompareNan.hook n
         · rename_i hop
           simp at h
           obtain ⟨⟨hdv, ha, hb⟩, hg⟩ := h
-          simp [Doc.compareNan, hop, hdv, zeroLit_of_spelled ha, zeroLit_of_spelled hb, hg]
+          simp [Doc.compareNan, hop, hdv, ha, hb, hg]
         · split at h
           · rename_i hop
             simp at h
             obtain ⟨⟨hdv, ha, hb⟩, hg⟩ := h
-            simp [Doc.compareNan, hop, hdv, zeroLit_of_spelled ha, zeroLit_of_spelled hb, hg]
+            simp [Doc.compareNan, hop, hdv, ha, hb, hg]
           · simp at h
   | stmt s => simp [CompareNan.hook] at h
   | table sp fs => simp [CompareNan.hook] at h
   | call c => simp [CompareNan.hook] at h
 
-theorem CompareNan.hook_canon (n : Node) (x : Expect) (hx : x ∈ Canon.compareNan n) :
+/-- `x == <zero>/<zero>` is reported however the zeros are spelled -/
+theorem CompareNan.hook_byValue (n : Node) (x : Expect) (hx : x ∈ ByValue.compareNan n) :
     ∃ g ∈ CompareNan.hook n, x.matches g = true := by
+  cases n with
+  | expr e =>
+    cases e <;> simp [ByValue.compareNan] at hx
+    case bin sp l op r =>
+      cases r <;> simp [ByValue.compareNan] at hx
+      case bin sp2 a dv b =>
+        obtain ⟨⟨⟨⟨⟨hv, hop⟩, hdv⟩, ha⟩, hb⟩, rfl⟩ := hx
+        refine ⟨{ code := "compare_nan", primary := sp, msg := CompareNan.message }, ?_, matches_self _ _ rfl⟩
+        rcases hop with hop | hop <;>
+          simp [CompareNan.hook, CompareNan.isVar_eq, CompareNan.expressionIsNan, CompareNan.valueIsZero_eq, hv, hop, hdv, ha, hb]
+  | stmt s => simp [ByValue.compareNan] at hx
+  | table sp fs => simp [ByValue.compareNan] at hx
+  | call c => simp [ByValue.compareNan] at hx
+
+theorem Canon.compareNan_sub (n : Node) (x : Expect) (hx : x ∈ Canon.compareNan n) : x ∈ ByValue.compareNan n := by
   cases n with
   | expr e =>
     cases e <;> simp [Canon.compareNan] at hx
@@ -125,27 +303,20 @@ theorem CompareNan.hook_canon (n : Node) (x : Expect) (hx : x ∈ Canon.compareN
       cases r <;> simp [Canon.compareNan] at hx
       case bin sp2 a dv b =>
         obtain ⟨⟨⟨⟨⟨hv, hop⟩, hdv⟩, ha⟩, hb⟩, rfl⟩ := hx
-        refine ⟨{ code := "compare_nan", primary := sp, msg := CompareNan.message }, ?_, matches_self _ _ rfl⟩
-        rcases hop with hop | hop <;>
-          simp [CompareNan.hook, CompareNan.isVar_eq, CompareNan.expressionIsNan, CompareNan.valueIsZero_eq, hv, hop, hdv, ha, hb]
+        simp [ByValue.compareNan, hv, hop, hdv, zeroLit_of_spelled ha, zeroLit_of_spelled hb]
   | stmt s => simp [Canon.compareNan] at hx
   | table sp fs => simp [Canon.compareNan] at hx
   | call c => simp [Canon.compareNan] at hx
 
+theorem CompareNan.hook_canon (n : Node) (x : Expect) (hx : x ∈ Canon.compareNan n) :
+    ∃ g ∈ CompareNan.hook n, x.matches g = true :=
+  CompareNan.hook_byValue n x (Canon.compareNan_sub n x hx)
+
 /-! ### suspicious_reverse_loop -/
 
-/-- the hypothesis that excludes the two defects: the bound is spelled in a form Rust's float parser
-reads (decimal, with the value Lua gives it) and does not fall in the gap between "rounds to ≤ 1 in
-single precision" and "rounds to ≤ 1 in double precision" -/
-def plainBound : Node → Bool
-  | .stmt (.numFor _ _ _ _ (.num t) .none _) =>
-    (match decimalValue t.text.toList, numValue t.text with
-     | some v, some w => v == w && (!v.f32LeOne || v.denotesLeOne)
-     | _, _ => false)
-  | _ => true
-
-theorem SuspiciousReverseLoop.hook_sound (n : Node) (g : Diag) (h : g ∈ SuspiciousReverseLoop.hook n)
-    (hp : plainBound n = true) : Doc.suspiciousReverseLoop n g = true := by
+/-- since /repo 9a12c1a every reported bound denotes a value `≤ 1` (no hypothesis needed) -/
+theorem SuspiciousReverseLoop.hook_sound (n : Node) (g : Diag) (h : g ∈ SuspiciousReverseLoop.hook n) :
+    Doc.suspiciousReverseLoop n g = true := by
   cases n with
   | stmt s =>
     cases s <;> simp [SuspiciousReverseLoop.hook] at h
@@ -157,27 +328,17 @@ theorem SuspiciousReverseLoop.hook_sound (n : Node) (g : Diag) (h : g ∈ Suspic
         obtain ⟨hle, hg⟩ := h
         cases a <;> simp [SuspiciousReverseLoop.isHashOp] at ha
         case un usp op inner =>
-          simp only [plainBound] at hp
-          simp only [rustF32LeOne] at hle
+          simp only [rustF64LeOne] at hle
           cases hd : decimalValue t.text.toList with
-          | none => simp [hd] at hp
+          | none => simp [hd] at hle
           | some v =>
-            cases hn : numValue t.text with
-            | none => simp [hd, hn] at hp
-            | some w =>
-              simp [hd, hn] at hp hle
-              obtain ⟨hvw, hgap⟩ := hp
-              subst hvw
-              have : v.denotesLeOne = true := by
-                rcases hgap with h1 | h1
-                · simp [hle] at h1
-                · exact h1
-              simp [Doc.suspiciousReverseLoop, ha, hn, this, hg, Expr.span]
+            simp [hd] at hle
+            simp [Doc.suspiciousReverseLoop, ha, numValue_of_decimal _ _ hd, hle, hg, Expr.span]
   | expr e => simp [SuspiciousReverseLoop.hook] at h
   | table sp fs => simp [SuspiciousReverseLoop.hook] at h
   | call c => simp [SuspiciousReverseLoop.hook] at h
 
-theorem rustF32LeOne_one : rustF32LeOne "1" = true := by decide
+theorem rustF64LeOne_one : rustF64LeOne "1" = true := by decide
 
 theorem SuspiciousReverseLoop.hook_canon (n : Node) (x : Expect) (hx : x ∈ Canon.suspiciousReverseLoop n) :
     ∃ g ∈ SuspiciousReverseLoop.hook n, x.matches g = true := by
@@ -187,7 +348,24 @@ theorem SuspiciousReverseLoop.hook_canon (n : Node) (x : Expect) (hx : x ∈ Can
     simp at hx
     obtain ⟨⟨hop, ht⟩, rfl⟩ := hx
     refine ⟨{ code := "suspicious_reverse_loop", primary := ⟨usp.first, t.idx⟩, msg := SuspiciousReverseLoop.message }, ?_, matches_self _ _ rfl⟩
-    simp [SuspiciousReverseLoop.hook, SuspiciousReverseLoop.isHashOp, hop, ht, rustF32LeOne_one, Expr.span]
+    simp [SuspiciousReverseLoop.hook, SuspiciousReverseLoop.isHashOp, hop, ht, rustF64LeOne_one, Expr.span]
+  · simp at hx
+
+/-- by value, for every bound spelled in decimal (the remaining miss is a hexadecimal spelling of 0 / 1) -/
+theorem SuspiciousReverseLoop.hook_byValue_decimal (n : Node) (x : Expect) (hx : x ∈ ByValue.suspiciousReverseLoop n)
+    (hdec : ∀ sp v cm a t b, n = .stmt (.numFor sp v cm a (.num t) .none b) → (decimalValue t.text.toList).isSome = true) :
+    ∃ g ∈ SuspiciousReverseLoop.hook n, x.matches g = true := by
+  unfold ByValue.suspiciousReverseLoop at hx
+  split at hx
+  · rename_i sp v cm usp op inner t b
+    have hd := hdec sp v cm _ t b rfl
+    cases hdv : decimalValue t.text.toList with
+    | none => simp [hdv] at hd
+    | some w =>
+      simp [numValue_of_decimal _ _ hdv] at hx
+      obtain ⟨⟨hop, hle⟩, rfl⟩ := hx
+      refine ⟨{ code := "suspicious_reverse_loop", primary := ⟨usp.first, t.idx⟩, msg := SuspiciousReverseLoop.message }, ?_, matches_self _ _ rfl⟩
+      simp [SuspiciousReverseLoop.hook, SuspiciousReverseLoop.isHashOp, hop, rustF64LeOne, hdv, hle, Expr.span]
   · simp at hx
 
 /-! ### constant_table_comparison -/
